@@ -1,7 +1,8 @@
 (* C07  Receive-side limits are enforced and buffering stays bounded.
    Only statements here; proofs live in coq/proofs/ConnLimitsP.v and ConnLimitsRefuted.v. *)
 From AQ Require Import lib.Base model.RangeSet model.StreamRecv model.ConnLimits model.ConnLimitsSpec
-  gen.C07Consts proofs.RangeSetP proofs.ConnLimitsP proofs.ConnLimitsAdv proofs.ConnLimitsUsed proofs.ConnLimitsSim.
+  gen.C07Consts proofs.RangeSetP proofs.ConnLimitsP proofs.ConnLimitsAdv proofs.ConnLimitsUsed proofs.ConnLimitsSim
+  proofs.ConnLimitsDeliv.
 
 (* over_limit_closes, part 1: in EVERY state, a STREAM / RESET_STREAM / MAX_STREAM_DATA / STREAM_DATA_BLOCKED
    frame that would create a peer-initiated stream beyond the current MAX_STREAMS value is answered with
@@ -141,3 +142,34 @@ Theorem advertised_is_enforced : forall cl msd md cb ops os c,
 Proof. exact advertised_is_enforced. Qed.
 Print Assumptions advertised_is_enforced.
 
+
+(* Delivery outcomes of the packets that advertised limits.  within_limit_never_accused_partial and advertised_is_enforced
+   above already quantify over op sequences that contain LimitLost / StreamLimitLost at ANY position (a MAX_DATA /
+   MAX_STREAMS / MAX_STREAM_DATA frame declared lost, with peer frames before the re-advertisement): the limit in force
+   for a check is the largest value ever written to the wire, whatever happened to the packet.  The two statements
+   below say why, per frame and in EVERY state:
+   verdict_reads_credit_only: two states that agree on the credit granted (Limit.value / .used of the three limits,
+   max_stream_data_local and the receiver of every stream, the discarded streams) give the same verdict on every STREAM /
+   RESET_STREAM / MAX_STREAM_DATA / STREAM_DATA_BLOCKED frame -- Limit.sent and max_stream_data_local_sent are never read;
+   lost_advertisement_changes_no_verdict: so declaring any advertisement lost changes no verdict. *)
+Theorem verdict_reads_credit_only : forall c c' o, credit_eq c c' -> limited_frame o = true ->
+  fst (step c o) = fst (step c' o).
+Proof. exact verdict_reads_credit_only. Qed.
+Print Assumptions verdict_reads_credit_only.
+
+Theorem lost_advertisement_changes_no_verdict : forall c o, limited_frame o = true ->
+  (forall k, fst (step (limit_lost c k) o) = fst (step c o)) /\
+  (forall sid, fst (step (stream_limit_lost c sid) o) = fst (step c o)).
+Proof. exact lost_advertisement_no_verdict. Qed.
+Print Assumptions lost_advertisement_changes_no_verdict.
+
+(* the tree under test has this shape: each of the five receive-side checks (connection data limit in the STREAM and the
+   RESET_STREAM handler, stream data limit in both, stream count in _get_or_create_stream) compares against the granted
+   value (code 0: Limit.value / max_stream_data_local; 1 would be the "sent" bookkeeping field, 2 .used), and the LOST
+   branch of the two delivery callbacks assigns nothing but the "sent" field (probed with ast on every run by
+   tools/gen/c07_consts.py; this stops checking on a tree where a check reads another field) *)
+Theorem limit_checks_read_granted_value :
+  CHECK_FIELD_CONN_STREAM = 0 /\ CHECK_FIELD_CONN_RESET = 0 /\ CHECK_FIELD_MSD_STREAM = 0 /\ CHECK_FIELD_MSD_RESET = 0 /\
+  CHECK_FIELD_COUNT = 0 /\ LOST_LIMIT_TOUCHES_ONLY_SENT = true.
+Proof. exact checks_read_granted. Qed.
+Print Assumptions limit_checks_read_granted_value.
